@@ -59,6 +59,7 @@ type Contract struct {
 	IsIface bool
 	Trusted bool // contract assumed, body not verified (external / bounded stand-in)
 	Inline  bool // "inline" directive: callers inline the body instead of using the contract
+	Extern  bool // assumed contract of a function outside the repository
 }
 
 func (c *Contract) ByKind(kind string) []*Clause {
@@ -188,15 +189,31 @@ func (p *Program) parseContractText(pkg, file, text string) error {
 		if t == "" {
 			continue
 		}
-		if strings.HasPrefix(t, "func ") || strings.HasPrefix(t, "iface ") {
+		if strings.HasPrefix(t, "func ") || strings.HasPrefix(t, "iface ") || strings.HasPrefix(t, "extern ") {
 			if err := flushClause(); err != nil {
 				return err
+			}
+			isExtern := strings.HasPrefix(t, "extern ")
+			if isExtern {
+				// "extern sort.Sort(data sort.Interface)": assumed contract of a function outside the repository
+				t = "func " + strings.TrimSpace(t[7:])
 			}
 			c, err := parseSig(t)
 			if err != nil {
 				return fmt.Errorf("%s:%d: %v", file, i+1, err)
 			}
 			c.Pkg = pkg
+			if isExtern {
+				c.Trusted = true
+				c.Extern = true
+				c.File = file
+				c.Line = i + 1
+				c.Loops = map[int]*LoopContract{}
+				p.Contracts[c.Key] = c
+				cur = c
+				curLoop = nil
+				continue
+			}
 			c.File = file
 			c.Line = i + 1
 			c.Loops = map[int]*LoopContract{}
